@@ -80,15 +80,58 @@ def group_typestate(rep, R4, enc, cnt, gsize, where):
             else:
                 return norm(t)
 
+    def raw_root(bb, i, term):
+        """identity of the buffer behind argument i of the call ending block bb: the named local it borrows
+        (two buffers that are both `Vec::new()` are different buffers), else the term"""
+        body_ = enc.body
+        tt = body_.blocks[bb]["term"]
+        if tt["k"] != "call" or i >= len(tt["args"]):
+            return src_root(term)
+        op = tt["args"][i]
+        pl = op.get("m") or op.get("c")
+        for _ in range(8):
+            if pl is None:
+                break
+            l = pl["l"]
+            if body_.local_name(l) or l <= body_.argc:
+                return ("buf", l)
+            ds = body_.defs().get(l, [])
+            if len(ds) != 1 or ds[0][2] != "assign":
+                break
+            rv = ds[0][3]["rv"]
+            if rv["k"] == "ref":
+                pl = rv["place"]
+            elif rv["k"] in ("use", "cast"):
+                pl = rv["a"].get("m") or rv["a"].get("c")
+            else:
+                break
+        else:
+            pass
+        if pl is None:
+            return src_root(term)
+        # a call result (`&token[..n]` -> Index::index(&token, ..)): follow the first argument of handle calls
+        ds = enc.body.defs().get(pl["l"], [])
+        if len(ds) == 1 and ds[0][2] == "call":
+            t2 = ds[0][3]
+            nm2 = (callee_names(t2)[1] or callee_names(t2)[0] or "").rsplit("::", 1)[-1]
+            if nm2 in ("index", "index_mut", "deref", "deref_mut", "as_slice", "as_mut_slice", "borrow") and t2["args"]:
+                return raw_root(ds[0][0], 0, term)
+        return src_root(term)
+
     def ext_events(p):
         return [e for e in p.events if e["k"] == "call" and e["callee"] and e["callee"].rsplit("::", 1)[-1] in ("extend_from_slice", "append", "extend") and len(e["args"]) > 1]
     in_loop = set()
     for blks in enc.body.loops().values():
         in_loop |= set(blks)
-    group_roots = set(src_root(e["args"][1]) for p in enc.paths if p.end == "loop" for e in ext_events(p) if e["bb"] in in_loop)
+    group_roots = set(raw_root(e["bb"], 1, e["args"][1]) for p in enc.paths if p.end == "loop" for e in ext_events(p) if e["bb"] in in_loop)
+    # an append *into* a buffer that is itself appended somewhere else is a token going into the group buffer
+    # (`group.extend_from_slice(&token[..n])`), not a flush: its source is not a group root
+    into_group = set(raw_root(e["bb"], 1, e["args"][1]) for p in enc.paths for e in ext_events(p) if raw_root(e["bb"], 0, e["args"][0]) in group_roots)
+    if group_roots - into_group:
+        group_roots -= into_group
 
     def flushes(p):
-        return [e for e in ext_events(p) if not group_roots or src_root(e["args"][1]) in group_roots]
+        return [e for e in ext_events(p) if not group_roots or raw_root(e["bb"], 1, e["args"][1]) in group_roots]
     # flush / reset pairing on the graph (across iterations): once a group has been copied to the output, the token
     # counter must be reset before the next copy, or the same group is written twice
     body = enc.body
@@ -339,16 +382,59 @@ def token_checks(rep, R2, R4, enc, forms, where, flag_shift=7):
             else:
                 return norm(t)
 
+    def raw_root(bb, i, term):
+        """identity of the buffer behind argument i of the call ending block bb: the named local it borrows
+        (two buffers that are both `Vec::new()` are different buffers), else the term"""
+        body_ = enc.body
+        tt = body_.blocks[bb]["term"]
+        if tt["k"] != "call" or i >= len(tt["args"]):
+            return src_root(term)
+        op = tt["args"][i]
+        pl = op.get("m") or op.get("c")
+        for _ in range(8):
+            if pl is None:
+                break
+            l = pl["l"]
+            if body_.local_name(l) or l <= body_.argc:
+                return ("buf", l)
+            ds = body_.defs().get(l, [])
+            if len(ds) != 1 or ds[0][2] != "assign":
+                break
+            rv = ds[0][3]["rv"]
+            if rv["k"] == "ref":
+                pl = rv["place"]
+            elif rv["k"] in ("use", "cast"):
+                pl = rv["a"].get("m") or rv["a"].get("c")
+            else:
+                break
+        else:
+            pass
+        if pl is None:
+            return src_root(term)
+        # a call result (`&token[..n]` -> Index::index(&token, ..)): follow the first argument of handle calls
+        ds = enc.body.defs().get(pl["l"], [])
+        if len(ds) == 1 and ds[0][2] == "call":
+            t2 = ds[0][3]
+            nm2 = (callee_names(t2)[1] or callee_names(t2)[0] or "").rsplit("::", 1)[-1]
+            if nm2 in ("index", "index_mut", "deref", "deref_mut", "as_slice", "as_mut_slice", "borrow") and t2["args"]:
+                return raw_root(ds[0][0], 0, term)
+        return src_root(term)
+
     def ext_events(p):
         return [e for e in p.events if e["k"] == "call" and e["callee"] and e["callee"].rsplit("::", 1)[-1] in ("extend_from_slice", "append", "extend") and len(e["args"]) > 1]
     # the group buffer is what the in-loop flush copies from; a header built with extend_from_slice is not a flush
     in_loop = set()
     for blks in enc.body.loops().values():
         in_loop |= set(blks)
-    group_roots = set(src_root(e["args"][1]) for p in enc.paths if p.end == "loop" for e in ext_events(p) if e["bb"] in in_loop)
+    group_roots = set(raw_root(e["bb"], 1, e["args"][1]) for p in enc.paths if p.end == "loop" for e in ext_events(p) if e["bb"] in in_loop)
+    # an append *into* a buffer that is itself appended somewhere else is a token going into the group buffer
+    # (`group.extend_from_slice(&token[..n])`), not a flush: its source is not a group root
+    into_group = set(raw_root(e["bb"], 1, e["args"][1]) for p in enc.paths for e in ext_events(p) if raw_root(e["bb"], 0, e["args"][0]) in group_roots)
+    if group_roots - into_group:
+        group_roots -= into_group
 
     def flushes(p):
-        return [e for e in ext_events(p) if not group_roots or src_root(e["args"][1]) in group_roots]
+        return [e for e in ext_events(p) if not group_roots or raw_root(e["bb"], 1, e["args"][1]) in group_roots]
     with_f = [p for p in rets if flushes(p)]
     without_f = [p for p in rets if not flushes(p)]
     tail = None
